@@ -2322,6 +2322,10 @@ def f_prebuilt_events(case):
     pre = [Event(time=T(2 + 2 * i), event_type="Prebuilt", target=srv, context={"prio": i % 3, "created_at": T(2 + 2 * i)}) for i in range(n)]
     src = const_source("src", srv, 2, 2 * n, case["seed"])                 # ticks at 2, 4, 6, ... : ties with the prebuilt events
     sim = mksim([srv, sink], 2 * n + 200, sources=[src], events=pre, keep_prebuilt=True)
+    warm = Collector("warmup")          # a second group of initial events, scheduled after construction
+    warm.set_clock(sim._clock)
+    for i in range(10 + k[2] % 40):
+        sim.schedule(Event(time=T(1), event_type="Warm", target=warm, context={}))
     for i in range(n // 2):
         sim.schedule(Event(time=T(2 + 4 * i), event_type="Late", target=srv, context={"prio": 1, "created_at": T(2 + 4 * i)}))
-    return Scenario(sim, workload=3 * n)
+    return Scenario(sim, workload=3 * n + 50)
